@@ -20,57 +20,11 @@
 #include "nmtools/utility/cast.hpp"
 #include "nmtools/utility/shape.hpp"
 
+#include "env.hpp"
 namespace c20 {
-using namespace sim;
 namespace nm = nmtools;
 namespace na = nmtools::array;
 namespace meta = nmtools::meta;
-
-constexpr size_t NOBJ = 3;
-constexpr size_t SLOTB = 2048;
-using Shape = std::vector<size_t>;
-
-struct Env {
-    Slots<NOBJ, SLOTB> slots;
-    long counter = 0;
-    std::string target, cur_op, sigstr;
-    int changing = 0; bool interesting = false; uint64_t ticks = 0;
-    long next_value() { return ++counter; }
-    void reset(const Plan& p) {
-        host_heap().reset(heapcfg_from_plan(p));
-        slots.reset((unsigned char)p.geti("slot.poison", 0xE7));
-        counter = 0; cur_op.clear(); sigstr.clear(); changing = 0; interesting = false; ticks = 0;
-        target = p.get("target");
-    }
-    std::string key(const std::string& vclass) const { return target + ":" + vclass + ":" + cur_op; }
-    void violation(const std::string& vclass, const std::string& detail) { fail(vclass, detail, key(vclass)); }
-    void begin_step(const std::string& op) { host_heap().set_origin(op); cur_op = op; crash_note(target + ":" + op); }
-    void heap_check() {
-        host_heap().check_integrity();
-        auto& errs = host_heap().errors();
-        if (!errs.empty()) fail(errs[0].first, errs[0].second, key(errs[0].first));
-    }
-    void applied(const std::string& op, const std::string& note, bool state_changing) {
-        ticks++; sigstr += op + ":" + note + ";"; if (state_changing) changing++;
-        trace().ev("op " + op + " " + note); probe("op." + op);
-    }
-    void final_leak_check() {
-        if (verdict().failed()) return;
-        if (host_heap().live_count() != 0) {
-            std::string origin; for (auto& b : host_heap().blocks()) if (b.live) { origin = b.origin; break; }
-            fail("LEAK", std::to_string(host_heap().live_count()) + " heap block(s) still live after every object was destroyed: " + host_heap().live_summary(), target + ":LEAK:" + origin);
-        }
-    }
-};
-
-struct Target {
-    virtual ~Target() {}
-    virtual std::string name() const = 0;
-    virtual void gen_steps(Plan& p, Rng& r, const std::string& tier) = 0;
-    virtual void run(const Plan& p, Env& env) = 0;
-};
-std::vector<Target*>& registry();
-struct Registrar { Registrar(Target* t) { registry().push_back(t); } };
 
 inline std::string shape_str(const Shape& s) { std::string r = "("; for (size_t i = 0; i < s.size(); i++) { if (i) r += ","; r += std::to_string(s[i]); } return r + ")"; }
 inline size_t prod(const Shape& s) { size_t p = 1; for (auto x : s) p *= x; return p; }
@@ -277,12 +231,26 @@ struct ArrTarget : Target {
         if (op == "ctor") {
             if (live(o)) return false;
             { Sut s; new (env->slots.at((size_t)o)) A{}; } env->slots.live[o] = true;
-            if constexpr (Tr::family == LEGACY_DYNAMIC) {
+            if constexpr (Tr::family == NDARRAY && Tr::clip >= 0 && Tr::fixed_numel >= 0) {
+                // clipped shape over a fixed buffer: the default shape (1,..,1,len(buffer)) is not representable when the buffer is
+                // longer than the last axis' bound (known finding, exhibited by findings/C20/clipped_fixed_default_ctor.replay);
+                // histories therefore start from the first representable shape, as nmtools::cast does
+                Shape s = {2, 3, 2}; bool ok; { Sut x; ok = Acc::resize(*obj(o), s, (int)st.arg(7) & 1); }
+                if (!ok) { env->violation("REFUSAL", std::string(Tr::name()) + " resize(2,3,2) right after construction was refused"); return true; }
+                model[o].shape = s; model[o].val.assign(prod(s), std::nullopt);
+                env->applied(op, on + " " + shape_str(s), true);
+            } else if constexpr (Tr::family == LEGACY_DYNAMIC) {
                 // a default-constructed dynamic_ndarray has rank 0 and no storage; give it its first shape right away
                 Shape s = step_shape(st); { Sut x; Acc::resize(*obj(o), s, (int)st.arg(7) & 1); }
                 model[o].shape = s; model[o].val.assign(prod(s), std::nullopt);
                 env->applied(op, on + " " + shape_str(s), true);
             } else { after_construct(o); env->applied(op, on + " " + shape_str(model[o].shape), true); }
+            return true;
+        }
+        if (op == "raw_ctor") {   // plain default construction, state compared as is (not generated; used by findings/ plans)
+            if (live(o)) return false;
+            { Sut s; new (env->slots.at((size_t)o)) A{}; } env->slots.live[o] = true;
+            after_construct(o); env->applied(op, on + " " + shape_str(model[o].shape), true);
             return true;
         }
         if (op == "copy") {
@@ -356,8 +324,20 @@ struct ArrTarget : Target {
         return false;
     }
 
+    // element of a cast result through the result's own operator(); the result has the rank of the source
+    template <class R> static auto result_elem(R& r, const Shape& idx) -> meta::get_element_type_t<R>* {
+        const size_t* p = idx.data();
+        switch (idx.size()) {
+            case 1: if constexpr (Acc::rank_ok(1)) return &call_idx(r, p, std::make_index_sequence<1>{}); break;
+            case 2: if constexpr (Acc::rank_ok(2)) return &call_idx(r, p, std::make_index_sequence<2>{}); break;
+            case 3: if constexpr (Acc::rank_ok(3)) return &call_idx(r, p, std::make_index_sequence<3>{}); break;
+        }
+        return nullptr;
+    }
+
     // Check a cast result R against the source's model: same shape, element-wise converted values, independent storage.
     template <class R> void check_cast(long o, R& r, const std::string& what) {
+        SimGuard g;   // harness strings must not land on the simulated heap
         const Model& m = model[o];
         Shape rs; { Sut x; rs = to_vec(nm::shape(r)); }
         if (rs != m.shape) { env->violation("CAST", std::string(Tr::name()) + " " + what + ": result shape " + shape_str(rs) + ", source shape " + shape_str(m.shape)); return; }
@@ -367,12 +347,12 @@ struct ArrTarget : Target {
         for (size_t f = 0; f < ne; f++) {
             if (!m.val[f]) continue;
             Shape idx = unravel(f, m.shape);
-            RE got; { Sut x; got = nm::apply_at(r, idx); }
+            RE got; { Sut x; got = *result_elem(r, idx); }
             RE want = static_cast<RE>(*m.val[f]);
             if (std::memcmp(&got, &want, sizeof(RE)) != 0) { env->violation("CAST", std::string(Tr::name()) + " " + what + ": element " + shape_str(idx) + " is not the converted source value"); return; }
         }
         // independence: a write to the result must not show in the source (and the check_all that follows sees the source)
-        if (ne > 0) { Shape idx = unravel(ne - 1, m.shape); Sut x; nm::apply_at(r, idx) = static_cast<RE>(-7); }
+        if (ne > 0) { Shape idx = unravel(ne - 1, m.shape); Sut x; *result_elem(r, idx) = static_cast<RE>(-7); }
         (void)rstr;
     }
 
@@ -424,6 +404,9 @@ bool try_cast_kind(T& tgt, long o, const Kind& kind, const char* kname) {
     using R = meta::resolve_optype_t<nm::cast_kind_t, A, Kind>;
     if constexpr (meta::is_fail_v<R>) { (void)tgt; (void)o; (void)kind; (void)kname; return false; }
     else {
+        // precondition: the target kind must be able to represent the shape. The clipped kinds bound every extent by
+        // NMTOOLS_CAST_DEFAULT_CLIPPED_VALUE; only default-constructed shapes such as (1,1,12) exceed it (DESIGN.md, C20 notes)
+        if (kname[0] == 'l') for (auto x : tgt.model[o].shape) if (x > (size_t)NMTOOLS_CAST_DEFAULT_CLIPPED_VALUE) { probe("cast.unrepresentable_skipped"); return false; }
         { Sut s; auto r = nm::cast(*tgt.obj(o), kind); tgt.check_cast(o, r, std::string("cast(") + kname + ")"); }
         tgt.env->applied("cast_kind", std::string("o") + std::to_string(o) + " " + kname + " " + shape_str(tgt.model[o].shape), false);
         probe(std::string("cast.") + kname);
@@ -434,16 +417,25 @@ bool try_cast_kind(T& tgt, long o, const Kind& kind, const char* kname) {
 template <class Tr> struct DefaultCasts {
     template <class T> static bool cast_kind(T& tgt, long o, int n) {
         namespace k = na::kind;
-        switch (n % 18) {
-            case 0: return try_cast_kind<T, Tr>(tgt, o, k::ndarray_cs_fb, "cs_fb"); case 1: return try_cast_kind<T, Tr>(tgt, o, k::ndarray_cs_hb, "cs_hb");
-            case 2: return try_cast_kind<T, Tr>(tgt, o, k::ndarray_cs_db, "cs_db"); case 3: return try_cast_kind<T, Tr>(tgt, o, k::ndarray_fs_fb, "fs_fb");
-            case 4: return try_cast_kind<T, Tr>(tgt, o, k::ndarray_fs_hb, "fs_hb"); case 5: return try_cast_kind<T, Tr>(tgt, o, k::ndarray_fs_db, "fs_db");
-            case 6: return try_cast_kind<T, Tr>(tgt, o, k::ndarray_hs_fb, "hs_fb"); case 7: return try_cast_kind<T, Tr>(tgt, o, k::ndarray_hs_hb, "hs_hb");
-            case 8: return try_cast_kind<T, Tr>(tgt, o, k::ndarray_hs_db, "hs_db"); case 9: return try_cast_kind<T, Tr>(tgt, o, k::ndarray_ds_fb, "ds_fb");
-            case 10: return try_cast_kind<T, Tr>(tgt, o, k::ndarray_ds_hb, "ds_hb"); case 11: return try_cast_kind<T, Tr>(tgt, o, k::ndarray_ds_db, "ds_db");
-            case 12: return try_cast_kind<T, Tr>(tgt, o, k::ndarray_ls_fb, "ls_fb"); case 13: return try_cast_kind<T, Tr>(tgt, o, k::ndarray_ls_hb, "ls_hb");
-            case 14: return try_cast_kind<T, Tr>(tgt, o, k::ndarray_ls_db, "ls_db"); case 15: return try_cast_kind<T, Tr>(tgt, o, k::fixed, "fixed");
-            case 16: return try_cast_kind<T, Tr>(tgt, o, k::hybrid, "hybrid"); default: return try_cast_kind<T, Tr>(tgt, o, k::dynamic, "dynamic");
+        // Only sources with a compile-time shape can name every ndarray kind: for the others the kind resolver of
+        // ndarray.hpp is a hard compile error (not a refusal) for the non-clipped kinds, so those pairs are not offered.
+        if constexpr (Tr::all_casts) {
+            switch (n % 18) {
+                case 0: return try_cast_kind<T, Tr>(tgt, o, k::ndarray_cs_fb, "cs_fb"); case 1: return try_cast_kind<T, Tr>(tgt, o, k::ndarray_cs_hb, "cs_hb");
+                case 2: return try_cast_kind<T, Tr>(tgt, o, k::ndarray_cs_db, "cs_db"); case 3: return try_cast_kind<T, Tr>(tgt, o, k::ndarray_fs_fb, "fs_fb");
+                case 4: return try_cast_kind<T, Tr>(tgt, o, k::ndarray_fs_hb, "fs_hb"); case 5: return try_cast_kind<T, Tr>(tgt, o, k::ndarray_fs_db, "fs_db");
+                case 6: return try_cast_kind<T, Tr>(tgt, o, k::ndarray_hs_fb, "hs_fb"); case 7: return try_cast_kind<T, Tr>(tgt, o, k::ndarray_hs_hb, "hs_hb");
+                case 8: return try_cast_kind<T, Tr>(tgt, o, k::ndarray_hs_db, "hs_db"); case 9: return try_cast_kind<T, Tr>(tgt, o, k::ndarray_ds_fb, "ds_fb");
+                case 10: return try_cast_kind<T, Tr>(tgt, o, k::ndarray_ds_hb, "ds_hb"); case 11: return try_cast_kind<T, Tr>(tgt, o, k::ndarray_ds_db, "ds_db");
+                case 12: return try_cast_kind<T, Tr>(tgt, o, k::ndarray_ls_fb, "ls_fb"); case 13: return try_cast_kind<T, Tr>(tgt, o, k::ndarray_ls_hb, "ls_hb");
+                case 14: return try_cast_kind<T, Tr>(tgt, o, k::ndarray_ls_db, "ls_db"); case 15: return try_cast_kind<T, Tr>(tgt, o, k::fixed, "fixed");
+                case 16: return try_cast_kind<T, Tr>(tgt, o, k::hybrid, "hybrid"); default: return try_cast_kind<T, Tr>(tgt, o, k::dynamic, "dynamic");
+            }
+        } else {
+            switch (n % 4) {
+                case 0: return try_cast_kind<T, Tr>(tgt, o, k::ndarray_ls_fb, "ls_fb"); case 1: return try_cast_kind<T, Tr>(tgt, o, k::ndarray_ls_hb, "ls_hb");
+                case 2: return try_cast_kind<T, Tr>(tgt, o, k::ndarray_ls_db, "ls_db"); default: return try_cast_kind<T, Tr>(tgt, o, k::dynamic, "dynamic");
+            }
         }
     }
     template <class T, class D> static bool one_dtype(T& tgt, long o, const char* dn) {
